@@ -4,6 +4,8 @@ CONSTANTS
   Name <- ScName
   Deps <- ScDeps
   Fault <- ScFault
+  Space <- ScSpace
+  SortDeps <- ScSortDeps
   MaxFiles = 1
   Arrange = "identity"
   Deviations = {}
